@@ -318,7 +318,7 @@ class workq:
                 # killed while blocked (client went away): a job that was already
                 # handed to this waiter must not be lost with it
                 self._waiters.remove((channels, ev))
-                if ev.ready():
+                if ev.ready() and not ev.value.done:
                     self.pushjob(ev.value)
                 raise
             self._waiters.remove((channels, ev))
